@@ -176,7 +176,7 @@ def concrete_builds(desc, tmpl, builds, hid):
         cfg = {E.concrete_name(desc, n): v for n, v in table(b["cfg"]).items()}
         syms = {E.concrete_name(desc, n): v for n, v in table(b["syms"]).items()}
         cb = {"node": node, "text": text, "cfg": cfg, "syms": syms, "file": bool(b["file"]),
-              "layout": (lay >> (2 * k)) % 3, "ctx": "none" if (lay >> 7 + k) % 2 and not syms else "arg",
+              "layout": (lay >> (2 * k)) % 4, "ctx": "none" if (lay >> 7 + k) % 2 and not syms else "arg",
               "globals": globals_from(desc, b["want"]["res"])}
         if b["asis"]["kind"] == "value" and b["asis"]["res"] != b["want"]["res"]:
             cb["globals_asis"] = globals_from(desc, b["asis"]["res"])
@@ -356,7 +356,7 @@ def gen_traces(seed, n):
                 cfg, syms = dict(builds[-1]["cfg"]), dict(builds[-1]["syms"])
             builds.append({"prog": d, "cfg": cfg, "syms": syms, "file": rng.random() < 0.88,
                            "node": E.render_node(t, own, bn), "text": E.node_text(t, own, bn),
-                           "layout": rng.randint(0, 2), "ctx": "none" if not syms and rng.random() < 0.5 else "arg"})
+                           "layout": rng.randint(0, 3), "ctx": "none" if not syms and rng.random() < 0.5 else "arg"})
         traces.append({"tid": tid, "builds": builds})
     return traces
 
